@@ -285,6 +285,10 @@ def cross_check_unsat(assertions, res):
             verdict = "error" if any(l.startswith("(error") for l in lines) else (lines[0] if lines and lines[0] in ("sat", "unsat", "unknown") else "other")
             d = res.xcheck.setdefault(name, {})
             d[verdict] = d.get(verdict, 0) + 1
+            if verdict == "error" and _os.environ.get("VT_XCHECK_KEEP"):
+                import shutil
+                shutil.copy(path, path + "." + name + ".error")
+                open(path + "." + name + ".error.out", "w").write(out[:2000])
             if verdict == "sat":
                 keep = path + ".disagreement"
                 os.replace(path, keep)
